@@ -34,15 +34,22 @@ package headers
 //@   ensures result == nil <==> (0 <= start && start <= end && end < dataSize)
 //@   ensures result != nil ==> result == ErrRangeValueOutOfBounds
 
+// The slice a parsed range denotes in a representation of dataSize bytes.
+//@ spec func specRangeStart(rstart int, rend int, size int) int = rstart == -1 ? size - rend : rstart
+//@ spec func specRangeEnd(rstart int, rend int, size int) int = (rstart != -1 && rend != -1) ? rend : size - 1
+//@ spec func specRangeOK(rstart int, rend int, size int) bool = !(rstart == -1 && rend == -1) && 0 <= specRangeStart(rstart, rend, size) && specRangeStart(rstart, rend, size) <= specRangeEnd(rstart, rend, size) && specRangeEnd(rstart, rend, size) < size
+
 //@ props C07 C16
 //@ func rangeHeader.SliceSize
 //@   pure
 //@   nopanic
+//@   requires r.start >= -1 && r.end >= -1
 //@   ensures err == nil ==> 0 <= start && start <= end && end < dataSize
+//@   ensures err == nil <==> specRangeOK(r.start, r.end, dataSize)
+//@   ensures err == nil ==> start == specRangeStart(r.start, r.end, dataSize) && end == specRangeEnd(r.start, r.end, dataSize)
 //@   ensures err == nil && r.start >= 0 && r.end >= 0 ==> start == r.start && end == r.end
 //@   ensures err == nil && r.start >= 0 && r.end == -1 ==> start == r.start && end == dataSize - 1
 //@   ensures err == nil && r.start == -1 && r.end >= 0 ==> start == dataSize - r.end && end == dataSize - 1
-//@   ensures r.start == -1 && r.end == -1 ==> err != nil
 
 //@ props C07 C16
 //@ func parseRangeHeader
@@ -99,6 +106,7 @@ package headers
 // was a Range request; with ignoreCacheControl only the Range test remains.
 //@ props C16 C04
 //@ func HeaderDirectives.ShouldCache
+//@   pure
 //@   nopanic
 //@   ensures [C04] result <==> ((ignoreCacheControl || !hd.CacheControl.value.some || (!hd.CacheControl.value.value.noCache && hd.CacheControl.value.value.maxAge >= 1)) && (ignoreCacheControl || !hd.Expires.value.some || !(hd.Expires.value.value < now)) && !hd.Range.value.some)
 
@@ -106,6 +114,7 @@ package headers
 // (an unparseable date was stored as the zero time, i.e. long past); else the default.
 //@ props C16 C03
 //@ func HeaderDirectives.GetExpiresOrDefault
+//@   pure
 //@   nopanic
 //@   ensures [C03] forceDefaultCacheMaxAge ==> result == now + defaultCacheMaxAge
 //@   ensures [C03] !forceDefaultCacheMaxAge && hd.CacheControl.value.some && hd.CacheControl.value.value.maxAge > 0 ==> result == now + hd.CacheControl.value.value.maxAge
